@@ -135,3 +135,120 @@ Theorem C19_history_example_is_not_degenerate :
 Proof. exact ig_history_not_degenerate. Qed.
 Print Assumptions C19_history_example_is_not_degenerate.
 
+
+(* ---- include-pattern filters along every history (Proofs/FilterHistory*.v): with an
+   include-pattern filter per version in force, every path of every record of every reachable
+   state is KEPT by the filter of the record's version -- in terms of the independent
+   reference notion of Spec/Patterns.v (include_keeps, with wildcard shadowing) as well as of
+   the model's matcher; for histories over any number of versions, any converter with conv_wf,
+   and also when the schemas change between operations (the opening reconciliation replaces
+   members by non-empty prefixes, and a prefix of a kept path is kept).  A conflict error only
+   ever lists kept paths: a field the filter ignores everywhere never produces a conflict.
+   Example: two managers write an ignored field with different values without conflict (the
+   same operation conflicts without the filter) and do conflict on a kept one. ---- *)
+From Coq Require Import List ZArith String Bool.
+From SMD Require Import Model.Value Model.PathElem Model.PathSet Model.Schema Model.Matcher Model.Updater
+  Spec.PathsAsSets Spec.Patterns Spec.Examples Proofs.OrderLaws Proofs.PathSetLaws Proofs.UpdaterLaws Proofs.UpdaterLaws2
+  Proofs.IgnoredHistory Proofs.FilterHistoryBase Proofs.FilterHistory.
+From SMD Require Proofs.SchemaOk Proofs.ValidateLaws Proofs.IncludeLaws.
+From SMD Require Import Proofs.FilterHistoryExample.
+Theorem C19_include_filter_never_owned_along_every_history :
+  forall (c : config) (pt : pattern_table) (v0 : string) (ops : list vop),
+         pattern_config pt c ->
+         compare_ok_wf c ->
+         fs_ok_wf c ->
+         conv_wf c ->
+         Forall vop_ok ops ->
+         wf_value (snd (fst (vrun c v0 ops))) = true /\
+         records_inv (snd (vrun c v0 ops)) /\ only_patterns_owned pt (snd (vrun c v0 ops)).
+Proof. exact only_patterns_along_histories. Qed.
+Print Assumptions C19_include_filter_never_owned_along_every_history.
+
+Theorem C19_only_kept_paths_owned_along_every_history :
+  forall (c : config) (v0 : string) (ops : list vop),
+         filter_config c ->
+         compare_ok_wf c ->
+         fs_ok_wf c ->
+         conv_wf c ->
+         Forall vop_ok ops ->
+         wf_value (snd (fst (vrun c v0 ops))) = true /\
+         records_inv (snd (vrun c v0 ops)) /\ only_kept_owned c (snd (vrun c v0 ops)).
+Proof. exact only_kept_along_histories. Qed.
+Print Assumptions C19_only_kept_paths_owned_along_every_history.
+
+Theorem C19_also_when_schemas_change :
+  forall (fs : option (list (string * sfilter))) (v0 : string)
+           (cops : list (config * vop)),
+         Forall (cop_ok fs) cops ->
+         wf_value (snd (fst (cvrun v0 cops))) = true /\
+         records_inv (snd (cvrun v0 cops)) /\
+         (forall c : config, cfg_ignore_filter c = fs -> only_kept_owned c (snd (cvrun v0 cops))).
+Proof. exact only_kept_along_changing_histories. Qed.
+Print Assumptions C19_also_when_schemas_change.
+
+Theorem C19_reconciliation_keeps_the_invariant :
+  forall (c : config) (n : nat) (live : tv) (mf mf0 : managed) (n0 : nat),
+         filter_config c ->
+         mf_ok mf ->
+         only_kept_owned c mf ->
+         reconcile_managed c n live mf = UOk (mf0, n0) -> only_kept_owned c mf0.
+Proof. exact reconcile_only_kept. Qed.
+Print Assumptions C19_reconciliation_keeps_the_invariant.
+
+Theorem C19_conflicts_only_on_kept_paths :
+  forall (c : config) (live cfg : string * value) (ver : string) 
+           (mf : managed) (mgr : string) (force : bool) (cs : list (string * path)),
+         filter_config c ->
+         compare_ok_wf c ->
+         fs_ok_wf c ->
+         conv_wf c ->
+         wf_value (snd live) = true ->
+         wf_value (snd cfg) = true ->
+         records_inv mf ->
+         only_kept_owned c mf ->
+         apply_op c live cfg ver mf mgr force = UErr (EConflict cs) ->
+         forall (m : string) (p : path),
+         In (m, p) cs ->
+         m <> mgr /\
+         (exists (mf0 : managed) (n0 : nat) (r : mrec),
+            reconcile_managed c 0 live mf = UOk (mf0, n0) /\
+            mf_get m mf0 = Some r /\
+            wf_path p = true /\ ps_has p (mr_set r) = true /\ kept_at c (mr_ver r) p = true).
+Proof. exact apply_conflicts_only_on_kept. Qed.
+Print Assumptions C19_conflicts_only_on_kept_paths.
+
+Theorem C19_filter_history_example :
+  wf_value (snd (fst (vrun fh_config "v1" fh_ops))) = true /\
+         records_inv (snd (vrun fh_config "v1" fh_ops)) /\
+         only_patterns_owned fh_table (snd (vrun fh_config "v1" fh_ops)).
+Proof. exact fh_history_only_patterns_owned. Qed.
+Print Assumptions C19_filter_history_example.
+
+Theorem C19_no_conflict_on_an_ignored_field :
+  (exists (o : tv) (mf' : managed),
+            apply_op fh_config (fst (vrun fh_config "v1" (firstn 3 fh_ops))) (
+              "v1", fh_op4) "v1" (snd (vrun fh_config "v1" (firstn 3 fh_ops))) "m1" false =
+            UOk (Some o, mf') /\
+            assoc_get "aa" match snd o with
+                           | VMap m => m
+                           | _ => nil
+                           end = Some (VInt 9) /\
+            assoc_get "aa"
+              match snd (fst (vrun fh_config "v1" (firstn 3 fh_ops))) with
+              | VMap m => m
+              | _ => nil
+              end = Some (VInt 7)) /\
+         (exists r : mrec,
+            mf_get "m2" (snd (vrun ex_config "v1" (firstn 3 fh_ops))) = Some r /\
+            ps_has p_aa (mr_set r) = true) /\
+         apply_op ex_config (fst (vrun ex_config "v1" (firstn 3 fh_ops))) (
+           "v1", fh_op4) "v1" (snd (vrun ex_config "v1" (firstn 3 fh_ops))) "m1" false =
+         UErr (EConflict (("m2", p_aa) :: nil)) /\
+         assoc_get "aa"
+           match snd (fst (vrun ex_config "v1" fh_ops)) with
+           | VMap m => m
+           | _ => nil
+           end = Some (VInt 7).
+Proof. exact fh_no_conflict_on_ignored. Qed.
+Print Assumptions C19_no_conflict_on_an_ignored_field.
+
